@@ -39,6 +39,13 @@ type tracked struct {
 	expand func(sc *specCtx, model string) (Val, bool)
 }
 
+// constAlloc: an object allocated on this path whose type has construction invariants (constinv).
+type constAlloc struct {
+	ref   string
+	named *types.Named
+	label string
+}
+
 type State struct {
 	env     map[ssa.Value]Val
 	names   map[string]Val
@@ -47,6 +54,7 @@ type State struct {
 	pc      []string
 	decls   []string
 	tracked []tracked
+	cAllocs []constAlloc // objects of a type with construction invariants allocated on this path
 	loopVar map[*ssa.BasicBlock]string
 	trace   []string
 	held    map[string]bool // ghost: mutexes held (term -> bool)
@@ -91,6 +99,7 @@ func (s *State) clone() *State {
 	n.pc = append([]string(nil), s.pc...)
 	n.decls = append([]string(nil), s.decls...)
 	n.tracked = append([]tracked(nil), s.tracked...)
+	n.cAllocs = append([]constAlloc(nil), s.cAllocs...)
 	n.trace = append([]string(nil), s.trace...)
 	n.defers = append([]*ssa.Defer(nil), s.defers...)
 	return n
